@@ -1822,6 +1822,9 @@ func (h procHarness) execOnce(p *simkit.Program) (*simkit.Result, *world) {
 // delivery steps (confluence check, DESIGN.md C02): the set of published digests must not depend
 // on arrival order, duplication or loopback timing.
 func (h procHarness) Exec(p *simkit.Program) *simkit.Result {
+	if p.C("mesh", 0) > 0 {
+		return execMesh(h, p)
+	}
 	res, w := h.execOnce(p)
 	k := int(p.C("confluence", 0))
 	if p.Prop != "C02" || k <= 0 || len(res.Violations) > 0 || res.HarnessErr != "" || w.loop {
